@@ -18,6 +18,8 @@ git stash -q; d0=$(go test -vet=off -count=1 -run 'TestMutationDemo$' $pkg 2>&1 
 echo "build:[$b] suite:[$t] demo-with:[$d1] demo-without:[$d0]"
 # run the checks against /repo with the patch applied
 cd /repo && git status --short | grep -v '^??' && { echo "/repo dirty"; exit 3; }
+# the evidence files are rewritten by every run: keep the ones from the unchanged tree
+rm -rf /tmp/evidence_keep && cp -r /verif/evidence /tmp/evidence_keep
 git apply $dir/patch.diff || { echo "patch does not apply to /repo"; exit 4; }
 res=""
 for p in $props; do
@@ -25,6 +27,7 @@ for p in $props; do
   res="$res$p: $out\n"
 done
 git checkout -- . 
+rm -rf /verif/evidence && mv /tmp/evidence_keep /verif/evidence
 printf "$res"
 python3 - "$name" "$b" "$t" "$d1" "$d0" "$res" "$props" <<'PY'
 import json,sys
